@@ -187,8 +187,8 @@ func decideSite(p *core.Program, info *types.Info, fd *ast.FuncDecl, fobj *types
 	vars := map[types.Object]*idxVarInfo{}
 	var unknown []string
 	lenKeys := map[string]bool{baseKey: true}
-	defOf := map[types.Object]ast.Expr{}   // locals that abbreviate an expression over lengths
-	callVars := map[string]*types.Var{}    // anonymous variables for strings.Index-style calls used in place
+	defOf := map[types.Object]ast.Expr{} // locals that abbreviate an expression over lengths
+	callVars := map[string]*types.Var{}  // anonymous variables for strings.Index-style calls used in place
 	described0 := map[types.Object]bool{}
 	var scan func(e ast.Expr)
 	scan = func(e ast.Expr) {
